@@ -5,38 +5,48 @@ import Relay.Model.Agg
 namespace DrvAgg
 open Wire Agg
 
-/-- hub state (`none` once the hub goroutine has panicked) and the broadcast sequence number -/
+/-- hub state with the undelivered messages of stalled subscribers (`none` once the hub goroutine has
+    panicked); the broadcast sequence number is `Full.seq` -/
 structure St where
-  hub : Option State := some {}
-  seq : Nat := 0
+  hub : Option Full := some {}
 
 def allSome : List (Option String) → Option (List String)
   | [] => some []
   | none :: _ => none
   | some x :: r => (allSome r).map (x :: ·)
 
-def parse (fs : List String) : Option Op :=
+/-- free slots of `stall`: one or two decimal digits -/
+def parseSlots (k : String) : Option Nat :=
+  let cs := k.toList
+  if (cs.length = 1 ∨ cs.length = 2) ∧ cs.all Char.isDigit then
+    some (cs.foldl (fun a c => a * 10 + (c.toNat - '0'.toNat)) 0)
+  else none
+
+def parse (fs : List String) : Option FOp :=
   match fs with
   | [] => none
+  | ["stall", n, t, k] =>
+    match hexToString n, hexToString t, parseSlots k with
+    | some n, some t, some k => some (.stall ⟨n, t⟩ k)
+    | _, _, _ => none
   | cmd :: rest =>
     match allSome (rest.map hexToString) with
     | none => none
     | some args =>
       match cmd, args with
-      | "reg", [n, t] => some (.register ⟨n, t⟩)
-      | "unreg", [n, t] => some (.unregister ⟨n, t⟩)
-      | "add", st :: feeds => some (.add st feeds)
-      | "del", [st] => some (.delete st)
-      | "bc", [t, snd] => some (.broadcast t snd)
+      | "reg", [n, t] => some (.core (.register ⟨n, t⟩))
+      | "unreg", [n, t] => some (.core (.unregister ⟨n, t⟩))
+      | "add", st :: feeds => some (.core (.add st feeds))
+      | "del", [st] => some (.core (.delete st))
+      | "bc", [t, snd] => some (.core (.broadcast t snd))
+      | "unstall", [n, t] => some (.unstall ⟨n, t⟩)
       | _, _ => none
 
 def entry (u : Sub) (topic : String) (seq n : Nat) : String :=
   s!"{stringToHex u.name}@{stringToHex u.topic}:{stringToHex topic}#{seq}*{n}"
 
-def deliveries (s : State) (topic sender : String) (seq : Nat) : String :=
-  let es := (candidates s).filterMap (fun u =>
-    let n := received s u topic sender
-    if n = 0 then none else some (entry u topic seq n))
+def deliveries (rows : List Row) : String :=
+  let es := rows.filterMap (fun r => if r.n = 0 then none else some (entry r.to r.msg.topic r.msg.seq r.n))
   match sortStrings es with
   | [] => "ok"
   | l => "ok " ++ joinWith "," l
@@ -65,20 +75,17 @@ def step (st : St) (fs : List String) : St × String :=
   if fs = ["st"] then
     match st.hub with
     | none => (st, "dead")
-    | some s => (st, dump s)
+    | some f => (st, dump f.core)
   else
   match parse fs with
   | none => (st, "bad-op")
   | some op =>
     match st.hub with
     | none => (st, "dead")
-    | some s =>
-      match Agg.step true s op with
+    | some f =>
+      match Agg.fstep f op with
       | .panic => ({ st with hub := none }, "panic close-closed")
-      | .ok s' =>
-        match op with
-        | .broadcast t snd => ({ hub := some s', seq := st.seq + 1 }, deliveries s' t snd st.seq)
-        | _ => ({ st with hub := some s' }, "ok")
+      | .ok (f', rows) => ({ st with hub := some f' }, deliveries rows)
 
 def modes : List (String × IO Unit) := [("agg", runLoop ({} : St) step)]
 
